@@ -327,6 +327,7 @@ class Interp:
         self.prefix = list(prefix)
         self.trace = []         # [(choice, n)]
         self.conds = []
+        self.branch_memo = {}
         self.events = []
         self.globals_cache = {}
         self.depth = 0
@@ -894,13 +895,36 @@ class Interp:
         v = self.ev(test, frame)
         t = self.truth(v)
         if t is None:
+            key = self._branch_key(test, frame)
+            if key is not None and key in self.branch_memo:
+                return self.branch_memo[key]         # the same test on the same values was decided earlier on this path
             c = self.choose(2)
             t = (c == 0)
+            if key is not None:
+                self.branch_memo[key] = t
             self.conds.append((ast.unparse(test), t))
             hook = getattr(self.dom, 'on_branch', None)
             if hook is not None:
                 hook(test, t, frame)
         return t
+
+    _PURE_TEST = (ast.Name, ast.Constant, ast.Compare, ast.BoolOp, ast.UnaryOp, ast.BinOp, ast.Load, ast.cmpop, ast.boolop, ast.unaryop, ast.operator)
+
+    def _branch_key(self, test, frame):
+        """Key identifying `test` evaluated on the current values of its names (None if it is not a pure scalar test)."""
+        names = []
+        for n in ast.walk(test):
+            if not isinstance(n, self._PURE_TEST):
+                return None
+            if isinstance(n, ast.Name):
+                names.append(n.id)
+        vals = []
+        for nm in sorted(set(names)):
+            v = self.lookup(nm, frame) if True else None
+            if isinstance(v, Unknown) or v is None:
+                return None
+            vals.append((nm, repr(v)))
+        return (ast.unparse(test), tuple(vals))
 
     def truth(self, v):
         if isinstance(v, Const):
